@@ -2,6 +2,7 @@ package main
 
 import (
 	"go/token"
+	"strings"
 
 	"golang.org/x/tools/go/ssa"
 )
@@ -209,7 +210,7 @@ func init() {
 		Explanation: "Decides the structural clause 'asOf and until are never confused and the range check precedes planning': role colouring of every store/argument/return that carries a time bound by name across six packages; positional wiring of asOfUntilFor/resolutionFor; TIMERANGE from/to → AsOf/Until; the asOf-before-table-asOf error precedes planning; the default window derives from the clock and the retention period. Added clauses: purity of the window operators; a window shorter than one stored period is rejected by the finer-than-source test on the window itself.",
 		NotDecided:  []string{"the three rounding rules (RoundTimeUp / UntilUp / UntilDown) at period boundaries", "Truncate/SubMerge alignment cases (values)"},
 		Assumptions: []string{"carrier roles follow the identifiers asOf/until, AsOf/Until, GetAsOf/GetUntil used consistently in this code base"},
-		Rules:       []func(*Ctx){func(c *Ctx) { ruleC07a(c, "C07.a") }, func(c *Ctx) { ruleC07b(c, "C07.b") }, func(c *Ctx) { ruleC07c(c, "C07.c") }, func(c *Ctx) { rulePurity(c, "C07.d") }, func(c *Ctx) { ruleC07e(c, "C07.e") }},
+		Rules:       []func(*Ctx){func(c *Ctx) { ruleC07a(c, "C07.a") }, func(c *Ctx) { ruleC07b(c, "C07.b") }, func(c *Ctx) { ruleC07c(c, "C07.c") }, func(c *Ctx) { rulePurity(c, "C07.d") }, func(c *Ctx) { ruleC07e(c, "C07.e") }, func(c *Ctx) { ruleC07f(c, "C07.f") }, func(c *Ctx) { ruleC07g(c, "C07.g") }},
 	})
 }
 
@@ -315,4 +316,94 @@ func ruleC07e(c *Ctx, rule string) {
 		})
 	}
 	c.check(rule, "resolutionFor: a window below one period is rejected", trunc[0].i.Pos(), ok && n > 0, "the truncated resolution (= window) is what the finer-than-source error test sees", "an empty or inverted window is no longer rejected ("+why+"): the plan is accepted and group.GetAsOf widens the window to one period ending at UNTIL — a period outside (asOf, until] is returned")
+}
+
+// ruleC07f: relative offsets parse component by component.
+func ruleC07f(c *Ctx, rule string) {
+	c.describe(rule, "flow: the component loop of sql.ParseDuration carries only the remaining text and the accumulated total from one component to the next — the per-component integer part, fraction and scale start afresh for every component; a fraction that survives into the next component shifts every relative ASOF/UNTIL built from a compound offset ('-0.5h10m')")
+	pd := c.need(rule, "z/sql.ParseDuration")
+	if pd == nil {
+		return
+	}
+	var outer *loopInfo
+	for _, l := range loopsOf(pd) {
+		l := l
+		hasStr := false
+		for _, in := range l.header.Instrs {
+			if ph, ok := in.(*ssa.Phi); ok && typeStr(ph.Type()) == "string" {
+				hasStr = true
+			}
+		}
+		if hasStr && (outer == nil || len(l.body) > len(outer.body)) {
+			outer = &l
+		}
+	}
+	if outer == nil {
+		c.undecided(rule, "ParseDuration: per-component state is reset", pd.Pos(), "no loop over the remaining text found")
+		return
+	}
+	nStr, nTotal := 0, 0
+	var extra []string
+	for _, in := range outer.header.Instrs {
+		ph, ok := in.(*ssa.Phi)
+		if !ok {
+			continue
+		}
+		switch typeStr(ph.Type()) {
+		case "string":
+			nStr++
+		case "int64", "uint64", "time.Duration":
+			nTotal++
+			if nTotal > 1 {
+				extra = append(extra, ph.Comment+" "+typeStr(ph.Type()))
+			}
+		default:
+			extra = append(extra, ph.Comment+" "+typeStr(ph.Type()))
+		}
+	}
+	c.check(rule, "ParseDuration: per-component state is reset", outer.header.Instrs[0].Pos(), nStr == 1 && nTotal <= 1 && len(extra) == 0, "loop-carried: the remaining text and the total", "the component loop carries further state across components ("+strings.Join(extra, ", ")+"): a fraction or scale left over from one component is applied to the next")
+}
+
+// ruleC07g: "now" for relative offsets is the database clock.
+func ruleC07g(c *Ctx, rule string) {
+	c.describe(rule, "flow: (*DB).now — the planner's Opts.Now, from which relative ASOF/UNTIL are resolved — returns the database clock on every path, the same clock the table's default window and retention boundary are taken from; a different notion of now (e.g. the table's high-water mark) shifts relative windows against the absolute ones")
+	nw := c.need(rule, "(*z.DB).now")
+	if nw == nil {
+		return
+	}
+	ok, n := true, 0
+	for _, in := range instrs(nw) {
+		r, isR := in.(*ssa.Return)
+		if !isR {
+			continue
+		}
+		n++
+		for _, leaf := range phiLeaves(r.Results[0]) {
+			if !isCallValue(leaf, "invoke (github.com/getlantern/vtime.Clock).Now") {
+				ok = false
+			}
+		}
+	}
+	c.check(rule, "DB.now is the database clock", nw.Pos(), ok && n > 0, "return db.clock.Now()", "(*DB).now can return something other than db.clock.Now(): relative ASOF/UNTIL are resolved against a different instant than the table's default window and retention boundary")
+	// and it is what the planner gets
+	wired := false
+	for _, fn := range c.P.ModFns {
+		if pkgOf(fn) != "z" {
+			continue
+		}
+		for _, st := range fieldStores(fn, "z/planner.Opts.Now") {
+			if mc, isMC := st.Val.(*ssa.MakeClosure); isMC {
+				if f, isF := mc.Fn.(*ssa.Function); isF && strings.HasSuffix(f.Name(), "now$bound") {
+					wired = true
+				}
+			}
+			if dependsOn(st.Val, func(v ssa.Value) bool {
+				f, isF := v.(*ssa.Function)
+				return isF && strings.Contains(f.String(), ".now")
+			}) {
+				wired = true
+			}
+		}
+	}
+	c.check(rule, "the planner's Now is DB.now", nw.Pos(), wired, "planner.Opts.Now = db.now", "planner.Opts.Now is not wired to (*DB).now")
 }
